@@ -142,8 +142,11 @@ func (h *Handler) handleRequest(host *packet.Host, p packet.DHCP4, options packe
 				return nakPacket(p, subnet.DHCPServer.AsSlice(), clientID)
 			}
 
-			// almost always a new host IP
-			h.session.DHCPv4Update(p.CHAddr(), reqIP, nameEntry)
+			// almost always a new host IP. The other server has not answered yet: the claim does not take an
+			// address away from the client that holds it by our own acknowledgement
+			if l := h.findByIP(reqIP); l == nil || l == lease || l.State != StateAllocated {
+				h.session.DHCPv4Update(p.CHAddr(), reqIP, nameEntry)
+			}
 			Logger.Msg("ignore select for another server").ByteArray("xid", p.XId()).IP("serverIP", serverIP).Write()
 
 			return nil // request not for us - silently discard packet
